@@ -375,9 +375,71 @@ class Concatenate(Proc):
                 'target_path': tpath}, [], [], []
 
 
+class FindReplace(Proc):
+    name = 'find_replace'
+    FINDS = ['a', 'a.', '(\\d+)-(\\d+)', 'x|y', '^x', 'y$', 'q"q', ' ', '', 'None', '1']
+
+    def gen(self, rng, desc, rows):
+        # text fields only: str() of other cell types is outside the model
+        strs = sorted({f['name'] for r in desc['resources'] for f in r['schema']['fields'] if f['type'] == 'string'} -
+                      {f['name'] for r in desc['resources'] for f in r['schema']['fields'] if f['type'] == 'number'})
+        names = rng.sample(strs, rng.randint(1, min(2, len(strs)))) if strs else ['no-such-field']
+        if strs and rng.random() < 0.1:
+            names.append('no-such-field')
+        fields = []
+        for n in names:
+            pats = []
+            for _ in range(rng.randint(0, 3)):
+                find = rng.choice(self.FINDS)
+                pats.append({'find': find, 'replace': '\\2/\\1' if find.startswith('(') else rng.choice(['Q', '', 'aa', 'y'])})
+            fields.append({'name': n, 'patterns': pats})
+        return {'fields': fields, 'sel': gen_sel(rng, res_names(desc))}
+
+    def real(self, a):
+        return DF.find_replace(copy.deepcopy(a['fields']), resources=a['sel'])
+
+    def enc(self, a, desc, rows=None):
+        sub = []
+        for rws in (rows or []):
+            for r in rws:
+                for f in a['fields']:
+                    v = r.get(f['name'])
+                    if v is not None and not isinstance(v, decimal.Decimal):
+                        v = str(v)      # the same field name may be an int / bool / date column elsewhere
+                        for p in f['patterns']:
+                            sub.append((p['find'], p['replace'], v))
+                            v = re.sub(p['find'], p['replace'], v)
+        return {'fields': [{'name': f['name'], 'patterns': [[p['find'], p['replace']] for p in f['patterns']]}
+                           for f in a['fields']]}, [], [], sub
+
+
+class AddComputedField(Proc):
+    name = 'add_computed_field'
+
+    def gen(self, rng, desc, rows):
+        op = rng.choice(['sum', 'max', 'min', 'multiply', 'constant', 'join'])
+        nums = sorted({f['name'] for r in desc['resources'] for f in r['schema']['fields'] if f['type'] in ('integer', 'number')})
+        ints = sorted({f['name'] for r in desc['resources'] for f in r['schema']['fields'] if f['type'] == 'integer'})
+        texty = sorted({f['name'] for r in desc['resources'] for f in r['schema']['fields'] if f['type'] in ('integer', 'string')})
+        pool = {'constant': [], 'join': texty}.get(op, nums if rng.random() < 0.8 else ints)
+        srcs = rng.sample(pool, rng.randint(0 if op in ('sum', 'join') else 1, min(3, len(pool)))) if pool else []
+        if op != 'constant' and rng.random() < 0.1:
+            srcs.append('no-such-field')
+        return {'target': rng.choice(['res__', 'n1']), 'operation': op, 'source': srcs,
+                'with': {'constant': 'c', 'join': rng.choice(['-', '', ', '])}.get(op, ''),
+                'sel': gen_sel(rng, res_names(desc))}
+
+    def real(self, a):
+        return DF.add_computed_field([{'target': a['target'], 'operation': a['operation'], 'source': list(a['source']),
+                                       'with': a['with']}], resources=a['sel'])
+
+    def enc(self, a, desc, rows=None):
+        return {'target': a['target'], 'operation': a['operation'], 'source': list(a['source']), 'with': a['with']}, [], [], []
+
+
 PROCS = {p.name: p for p in [DeleteFields(), SelectFields(), RenameFields(), AddField(), FilterRows(), Deduplicate(),
                              DeleteResource(), SetPrimaryKey(), UpdateResource(), Duplicate(), Unpivot(),
-                             Concatenate()]}
+                             Concatenate(), FindReplace(), AddComputedField()]}
 
 
 # --------------------------------------------------------------------------- running
@@ -399,6 +461,8 @@ def classify_exc(e):
         return 'runtime'
     if isinstance(e, re.error):
         return 'reError'
+    if isinstance(e, ValueError):
+        return 'runtime'       # max() / min() of an empty sequence: the model's `runtime`
     return type(e).__name__
 
 
@@ -418,7 +482,10 @@ def run_real(steps, desc, rows, validate=False):
 
 def model_op(proc, a, desc, rows):
     p = PROCS[proc]
-    margs, pm, full, sub = p.enc(a, desc)
+    if proc in ('find_replace', 'add_computed_field'):
+        margs, pm, full, sub = p.enc(a, desc, rows)
+    else:
+        margs, pm, full, sub = p.enc(a, desc)
     full = list(full) + sel_ext(a.get('sel'), desc)
     margs['sel'] = canon.enc_sel(a.get('sel'))
     return {'op': 'step', 'proc': proc, 'args': margs, 'pkg': canon.enc_pkg(desc, rows),
